@@ -173,6 +173,10 @@ class Vec:
             if self.store_hook is not None:
                 self.store_hook(norm.text(t), v, mask, self)
                 return
+        if isinstance(t, (ast.Tuple, ast.List)) and isinstance(v, (list, tuple)) and len(v) == len(t.elts):
+            for tt, vv in zip(t.elts, v):
+                self.assign(tt, vv, mask)
+            return
         raise AnalysisError(f"store to {ast.unparse(t)} not modelled")
 
     # ---- expressions -----------------------------------------------------------------
